@@ -176,20 +176,30 @@ theorem enabled_xor_disabled (hc : c.isHtml = true) (hk : isFormControl c e = tr
     matchList c l e Gen.CSS_ENABLED = !matchList c l e Gen.CSS_DISABLED := by
   rw [enabled_eq c l e hc, hk, Bool.true_and]
 
-/-- The `[type=hidden]` exclusion in the ASCII environment: ASCII-case-insensitive equality of the
-    attribute value in an HTML document, exact equality in an XHTML document parsed as XML. -/
+/-- The `[type=hidden]` exclusion in the ASCII environment: SOME `type` attribute has the value,
+    up to ASCII case in an HTML document, exactly in an XHTML document parsed as XML. -/
 theorem typeIs_ascii (v : String) (henv : c.env = asciiEnv) :
-    typeIs c e v = (match attrVal c e "type" with
-      | none => false
-      | some s => if c.isXml then s == v.toStr else lower s == lower v.toStr) := by
+    typeIs c e v = (attrVals c e "type").any fun s =>
+      if c.isXml then s == v.toStr else lower s == lower v.toStr := by
   unfold typeIs
   cases hx : c.isXml
   · rw [Bool.not_false, attrEq_ascii_ic c e _ _ henv]
-    cases attrVal c e "type" <;> simp
+    simp
   · rw [Bool.not_true, attrEq_exact]
-    cases h : attrVal c e "type" with
-    | none => simp
-    | some s => by_cases hs : s = v.toStr <;> simp [hs]
+    simp
+
+/-- The former formulation (the test reads THE `type` attribute), valid when `[type]` designates
+    at most one attribute — every tree made by a parser. -/
+theorem typeIs_ascii_unique (v : String) (henv : c.env = asciiEnv)
+    (hu : (attrVals c e "type").length ≤ 1) :
+    typeIs c e v = (match attrVal c e "type" with
+      | none => false
+      | some s => if c.isXml then s == v.toStr else lower s == lower v.toStr) := by
+  rw [typeIs_ascii c e v henv, attrVal_eq_head?]
+  match h : attrVals c e "type", hu with
+  | [], _ => rfl
+  | [s], _ => simp
+  | _ :: _ :: _, hu => simp at hu
 
 /-! ### `:read-write` / `:read-only` -/
 
@@ -460,19 +470,33 @@ theorem range_same_attribute (n : String) (hl : lower n.toStr = n.toStr) :
   unfold attrVal; rw [attrByName_eq_selector c e _ hl]
 
 /-- Consistency of the type test: in the ASCII environment, when the `type` attribute holds a
-    string, `[type=v]` (for a lower-case keyword `v`) implies that `match_range` dispatches on `v`.
-    (Without the two hypotheses this fails; see the deviations in `Audit/C17`.) -/
+    string and is the only attribute `[type]` designates, `[type=v]` (for a lower-case keyword `v`)
+    implies that `match_range` dispatches on `v`.
+    (Without the three hypotheses this fails; see the deviations in `Audit/C17`.  The uniqueness
+    hypothesis is new with the repair of `match_attribute_name`: the selector now accepts when ANY
+    attribute named `type` — `type`, `TYPE`, … in a hand-edited non-XML tree — has the value,
+    `match_range` still reads the first one through `get_attribute_by_name`.) -/
 theorem range_type_consistent (v : String) (hl : lower v.toStr = v.toStr) (henv : c.env = asciiEnv)
-    (s : Str) (hs : c.attrByName e "type".toStr = some (.str s)) (ht : typeIs c e v = true) :
+    (s : Str) (hs : c.attrByName e "type".toStr = some (.str s))
+    (hu : (attrVals c e "type").length ≤ 1) (ht : typeIs c e v = true) :
     lowerE ((c.attrByName e "type".toStr).getD (.str [])) = .ok v.toStr := by
   have hv : attrVal c e "type" = some s := by
     rw [← range_same_attribute c e "type" (by decide), hs]; rfl
-  rw [typeIs_ascii c e v henv, hv] at ht
+  rw [typeIs_ascii_unique c e v henv hu, hv] at ht
   rw [hs]
   show Except.ok (lower s) = _
   cases hx : c.isXml
   · simp only [hx, Bool.false_eq_true, if_false, beq_iff_eq, hl] at ht; rw [ht]
   · simp only [hx, if_true, beq_iff_eq] at ht; rw [ht, hl]
+
+/-- In general (several attributes named `type`): `[type=v]` implies that SOME attribute `[type]`
+    designates has the value `v` (up to case in HTML); `match_range` dispatches on the first. -/
+theorem range_type_some (v : String) (henv : c.env = asciiEnv) (ht : typeIs c e v = true) :
+    ∃ s ∈ attrVals c e "type", if c.isXml then s = v.toStr else lower s = lower v.toStr := by
+  rw [typeIs_ascii c e v henv, List.any_eq_true] at ht
+  obtain ⟨s, hm, h⟩ := ht
+  refine ⟨s, hm, ?_⟩
+  cases hx : c.isXml <;> simpa [hx] using h
 
 /-! ## 2. Definitional laws -/
 
@@ -671,12 +695,14 @@ theorem firstSubmit_cons (ch : Loc) (rest : List Loc) :
 
 /-- The scan's notion of "submit" and the guarding selector's `[type="submit"]` coincide — in HTML
     *and* in XML (after the repair of the scan) — in the ASCII environment, for a `type` attribute
-    that is not list-valued. -/
+    that is not list-valued and is the only attribute `[type]` designates (the scan reads the first
+    one, the selector — since the repair of `match_attribute_name` — accepts any of them). -/
 theorem scanIsSubmit_eq_typeIs (henv : c.env = asciiEnv)
-    (hstr : ∀ ls, c.attrByName e "type".toStr ≠ some (.list ls)) :
+    (hstr : ∀ ls, c.attrByName e "type".toStr ≠ some (.list ls))
+    (hu : (attrVals c e "type").length ≤ 1) :
     scanIsSubmit c e = typeIs c e "submit" := by
   have hv := range_same_attribute c e "type" (by decide)
-  rw [typeIs_ascii c e "submit" henv, ← hv]
+  rw [typeIs_ascii_unique c e "submit" henv hu, ← hv]
   unfold scanIsSubmit
   have hl : lower "submit".toStr = "submit".toStr := by decide
   cases ha : c.attrByName e "type".toStr with
